@@ -24,7 +24,7 @@ import (
 // datagrams pass, delivers the same acknowledgement again (and again), lets more
 // datagrams pass, and then opens every datagram it received with that key:
 // no two datagrams that are sealed under the session key may carry the same nonce.
-func runDuplicateAck() {
+func runDuplicateAck(prop string) {
 	n := 2 + simrt.Choose(2, "n")
 	m := NewMesh(n, "chain")
 	for _, nd := range m.Nodes {
@@ -168,6 +168,9 @@ func runDuplicateAck() {
 		seen := map[[12]byte]int{}
 		opened := 0
 		for i, rf := range rp.Received[from:] {
+			if rf.StreamID != f.StreamID {
+				continue // a straggler of an earlier round's association
+			}
 			var data []byte
 			switch rf.Type {
 			case protocol.FrameUDPDatagram:
@@ -186,6 +189,21 @@ func runDuplicateAck() {
 			copy(nonce[:], data[:12])
 			if _, err := aead.Open(nil, nonce[:], data[12:], nil); err != nil {
 				simrt.Probe("c02_datagram_under_another_key")
+				public := ""
+				if zs, zerr := crypto.ComputeECDH([32]byte{}, pubB); zerr == nil {
+					zk := crypto.DeriveSessionKey(zs, reqID, pubA, pubB, true).Key()
+					if za, e := chacha20poly1305.New(zk[:]); e == nil {
+						if _, e := za.Open(nil, nonce[:], data[12:], nil); e == nil {
+							public = "; it opens under the key that an all-zero private key yields, which every observer of the two public keys can compute"
+							simrt.Probe("c04_datagram_sealed_under_publicly_computable_key")
+						}
+					}
+				}
+				if prop == "C03" || prop == "C04" {
+					// C03: the two ends of a tunnel hold the same key; C04: every
+					// application byte on a mesh link is sealed under the tunnel's key
+					simrt.Failf("ends-derived-different-keys", "ingress sealed a datagram under a key that is not the tunnel's", "%s ingress %s: datagram %d that reached the exit does not open under the key both ends derived from the open and its acknowledgement (the acknowledgement was delivered %d times)%s", kind, ing.Name, i, 1+dups, public)
+				}
 				continue
 			}
 			opened++
